@@ -128,6 +128,8 @@ def check_matrix(led, method, kernel_names, extra_kwargs=None, with_conn=False, 
             geoms = ['plate', 'cpanel', 'plate'][:N]
             conn_spec = [(0, 1, 'SSycte')] if (with_conn and N >= 2) else ([] if with_conn else None)
             tag = 'N=%d,finalize=%s%s' % (N, fin, '' if preload_panel is None else ',panel %d pre-loaded' % (preload_panel + 1))
+            if extra_kwargs:
+                tag += ',' + ','.join('%s given' % k_ for k_ in sorted(extra_kwargs))
 
             def run():
                 asm, panels, meta, conn = make_assembly(it, geoms, conn_spec, preload_panel=preload_panel)
